@@ -40,7 +40,56 @@ package reference_criterion
 //@   loop 2 invariant [ctx] fresh(mappedWeights) && len(mappedWeights) == len(*rankedCriteria)
 //@   loop 2 invariant [same_criteria] forall k int :: 0 <= k && k < iter ==> mappedWeights[k].Criterion == (*rankedCriteria)[k].Criterion
 
+// ---- choosing the reference-criterion rule named in the bias parameters (C18, C19, C20)
+//@ spec factoryName(f ReferenceCriterionFactory) string
+//@ ifacemethod ReferenceCriterionFactory.Identifier
+//@   ensures result == factoryName(self)
+//@ func (*ImportanceRatioReferenceCriterionManager).Identifier
+//@   property C18 C19 C20
+//@   nopanic
+//@   ensures [name] result == "importanceRatio"
+//@ func (*RandomUniformReferenceCriterionManager).Identifier
+//@   property C18 C19 C20
+//@   nopanic
+//@   ensures [name] result == "randomUniform"
+//@ func (*RandomWeightedReferenceCriterionManager).Identifier
+//@   property C18 C19 C20
+//@   nopanic
+//@   ensures [name] result == "randomWeighted"
+// every request gets its own provider object (the parameters are decoded into it)
+//@ func (*ImportanceRatioReferenceCriterionManager).NewProvider
+//@   property C18 C19 C09
+//@   nopanic
+//@   ensures [new_object_each_time] typeis(result, *ImportanceRatioReferenceCriterionProvider) && fresh(result.(*ImportanceRatioReferenceCriterionProvider))
+//@ func (*RandomUniformReferenceCriterionManager).NewProvider
+//@   property C18 C19 C09
+//@   nopanic
+//@   ensures [new_object_each_time] typeis(result, *RandomUniformReferenceCriterionProvider) && fresh(result.(*RandomUniformReferenceCriterionProvider))
+//@             && result.(*RandomUniformReferenceCriterionProvider).generator == i.RandomFactory
+//@ func (*RandomWeightedReferenceCriterionManager).NewProvider
+//@   property C18 C19 C09
+//@   nopanic
+//@   ensures [new_object_each_time] typeis(result, *RandomWeightedReferenceCriterionProvider) && fresh(result.(*RandomWeightedReferenceCriterionProvider))
+//@ func (*ReferenceCriteriaManager).factory
+//@   property C18 C19 C20
+//@   panics_iff [unknown_rule] !(exists k int :: 0 <= k && k < len(m.factories) && factoryName(m.factories[k]) == param.ReferenceCriterionType)
+//@   ensures [first_with_that_name] exists k int :: 0 <= k && k < len(m.factories) && result == m.factories[k] && factoryName(result) == param.ReferenceCriterionType
+//@             && forall j int :: 0 <= j && j < k ==> factoryName(m.factories[j]) != param.ReferenceCriterionType
+//@   loop 1 invariant [none_so_far] forall j int :: 0 <= j && j < iter ==> factoryName(m.factories[j]) != param.ReferenceCriterionType
+//@ func (*ReferenceCriteriaManager).extractFactoriesNames
+//@   property C20
+//@   ensures [names] fresh(result) && len(result) == len(m.factories) && forall k int :: 0 <= k && k < len(m.factories) ==> result[k] == factoryName(m.factories[k])
+//@   loop 1 invariant [so_far] fresh(names) && len(names) == len(m.factories) && forall k int :: 0 <= k && k < iter ==> names[k] == factoryName(m.factories[k])
+//@ func (*ReferenceCriteriaManager).fetchFactoryTypeFromParams
+//@   property C18 C19 C20
+//@   ensures [named_rule_default_first] result.ReferenceCriterionType == ((decoded_has(*params, "ReferenceCriterionType") && len(decoded_str(*params, "ReferenceCriterionType")) > 0)
+//@             ? decoded_str(*params, "ReferenceCriterionType") : factoryName(m.factories[0]))
+
 // ForParams decodes into the provider returned by NewProvider() (an interface value whose dynamic type is not known
-// statically): assumed to write only that fresh object and to return it.
+// statically): assumed to write only that object.
 //@ func (*ReferenceCriteriaManager).ForParams
-//@   trusted
+//@   property C18 C19 C20
+//@   returnhint [rule_named_in_the_parameters_default_first] exists k int :: 0 <= k && k < len(m.factories) && factory == m.factories[k]
+//@             && factoryName(factory) == ((decoded_has(*params, "ReferenceCriterionType") && len(decoded_str(*params, "ReferenceCriterionType")) > 0)
+//@                  ? decoded_str(*params, "ReferenceCriterionType") : factoryName(m.factories[0]))
+//@   ensures [some_provider] len(m.factories) > 0
